@@ -17,8 +17,12 @@ def run(ctx):
     seeds = [ctx.seed] if q else [ctx.seed + i for i in range(4)]
     for s in seeds:
         recs += smf.gen(ctx, "wr", 400 if q else 4000, s, "c01", big=True, fulldelta=True)
+    # small-scope exhaustive: every history of up to 2 (quick) / 3 (thorough) events over the model's event alphabet
+    xrecs = smf.gen(ctx, "wrx", 2 if q else 3, 0, "c01")
+    ctx.cov["exhaustive_small_scope"] = {"max_events": 2 if q else 3, "histories": len(xrecs)}
+    recs += xrecs
     fails = smf.validate(ctx, recs)
-    nt = {"multibyte_delta", "same_status", "smpte", "long_payload", "multi_add", "early_close", "close_omitted"}
+    nt = {"exhaustive_small", "multibyte_delta", "same_status", "smpte", "long_payload", "multi_add", "early_close", "close_omitted"}
     ctx.count(len(recs), [hash(json_key(r)) for r in recs if nt & set(r["feat"])],
               [{"hist": r["hist"][:6], "nbytes": len(r["bytes"]), "read_kind": r["read"]["kind"], "feat": r["feat"]} for r in recs[:2]])
     ctx.cov["features"] = smf.feats(recs)
